@@ -8,6 +8,8 @@ import KikiVerif.Proofs.NoPanic
 import KikiVerif.Proofs.Encode
 import KikiVerif.Proofs.FirstSound
 import KikiVerif.Proofs.LalrConflict
+import KikiVerif.Proofs.Universal
+import KikiVerif.Properties.C02
 
 namespace KikiVerif.C04
 open KikiVerif.Table KikiVerif.Machine KikiVerif.LR
@@ -104,6 +106,24 @@ example :
     want c ⟨0, 2, 1⟩ = some (2, .reduce 0) ∧ want c ⟨1, 2, 1⟩ = some (1, .shift) ∧ want c ⟨2, 2, 1⟩ = some (2, .accept) := by
   decide
 
+/-- **C04, "hence every ambiguous grammar", every validated file**: if some token sequence has two different
+derivation trees from the start symbol, no table is produced — `machine_to_table` reports a (genuine) conflict.
+(A produced table would make the emitted driver complete for the grammar, and a complete deterministic driver
+returns *the* derivation tree of its input: `C02_unique`.) -/
+theorem C04_ambiguous_rejected {P : Type} (vf : VFile.File) (enc : Encode.Enc) (m : Machine) (fuel : Nat)
+    (he : Encode.encode vf = some enc) (hm : machineOf enc.ctx fuel = some (some m))
+    (t1 t2 : Tree Nat P) (h1 : WF enc.ctx.g t1 (.n enc.ctx.g.start)) (h2 : WF enc.ctx.g t2 (.n enc.ctx.g.start))
+    (hy : t1.yield = t2.yield) (hne : t1 ≠ t2) :
+    ∃ s e n, machineToTable enc.ctx m = .conflict s e n ∧ Genuine enc.ctx m s e n := by
+  have ok := Encode.encode_ok he
+  obtain ⟨fm, _, mok⟩ := machineOf_ok ok.terms hm
+  cases h : machineToTable enc.ctx m with
+  | ok t =>
+    obtain ⟨fm', hk, _⟩ := Universal.generator_checked ok hm h
+    exact absurd (C02.C02_unique (Valid.complete_of_checked (P := P) hk) t1 t2 h1 h2 hy) hne
+  | conflict s e n => exact ⟨s, e, n, rfl, conflict_genuine _ _ s e n h⟩
+  | panic site => exact absurd h (NoPanic.machineToTable_no_panic ok mok site)
+
 end KikiVerif.C04
 
 #print axioms KikiVerif.C04.C04_setAction_ok_iff
@@ -112,3 +132,4 @@ end KikiVerif.C04
 #print axioms KikiVerif.C04.C04_conflict_genuine
 #print axioms KikiVerif.C04.C04_emitted_iff_conflict_free
 #print axioms KikiVerif.C04.C04_emitted_iff_lalr1
+#print axioms KikiVerif.C04.C04_ambiguous_rejected
